@@ -17,6 +17,8 @@ use serde_json::json;
 #[derive(Clone, Debug, Serialize, Deserialize, PartialEq)]
 pub enum FStep {
     Mount,
+    /// mount with FsOptions::strict(false)
+    MountLenient,
     Unmount,
     Stats,
     Status,
@@ -103,6 +105,18 @@ impl Exec {
                 let dev = self.dev.handle();
                 let clock = self.clock.clone();
                 let s = self.rec("FileSystem::new", |_| Session::mount(&dev, &clock, &MountOpts::default()));
+                match s {
+                    Some(s) => {
+                        self.sess = Some(s);
+                        true
+                    }
+                    None => false,
+                }
+            }
+            FStep::MountLenient => {
+                let dev = self.dev.handle();
+                let clock = self.clock.clone();
+                let s = self.rec("FileSystem::new (strict off)", |_| Session::mount(&dev, &clock, &MountOpts { strict: false, ..MountOpts::default() }));
                 match s {
                     Some(s) => {
                         self.sess = Some(s);
@@ -438,6 +452,7 @@ pub fn targets() -> Vec<(&'static str, Vec<FStep>, Vec<FStep>)> {
     let m = || vec![FStep::Mount];
     vec![
         ("mount", vec![], vec![FStep::Mount]),
+        ("mount_strict_off", vec![], vec![FStep::MountLenient]),
         ("stats", m(), vec![FStep::Stats]),
         ("status_flags", m(), vec![FStep::Status]),
         ("labels", m(), vec![FStep::Labels]),
